@@ -597,9 +597,7 @@ func C01(c *vlib.Ctx) {
 		jobs = append(jobs, job{i, crashes})
 	}
 	parallel(len(jobs), 8, func(k int) { c01Trial(c, root, jobs[k].idx, jobs[k].crashes) })
-	if c.Thorough() || os.Getenv("VERIF_C01_STRACE") != "" {
-		c01Strace(c, root)
-	}
+	c01Strace(c, root)
 	if c.Counter("restart_audits") == 0 {
 		c.Inconclusive("C01: no restart audit completed")
 	}
